@@ -673,7 +673,8 @@ def d1(
         raise ValueError("all elements in time_to_maturity have to be non-negative")
     if not (v >= 0).all():
         raise ValueError("all elements in volatility have to be non-negative")
-    variance = v * t.sqrt()
+    # (+ 0.0: a negative zero - e.g. time_to_maturity = -(t - T) at t = T - is zero, not a negative number)
+    variance = v * t.sqrt() + 0.0
     output = s / variance + variance / 2
     # TODO(simaki): Replace zeros_like with 0.0 once https://github.com/pytorch/pytorch/pull/62084 is merged
     return output.where((s != 0).logical_or(variance != 0), torch.zeros_like(output))
@@ -710,7 +711,8 @@ def d2(
         raise ValueError("all elements in time_to_maturity have to be non-negative")
     if not (v >= 0).all():
         raise ValueError("all elements in volatility have to be non-negative")
-    variance = v * t.sqrt()
+    # (+ 0.0: a negative zero - e.g. time_to_maturity = -(t - T) at t = T - is zero, not a negative number)
+    variance = v * t.sqrt() + 0.0
     output = s / variance - variance / 2
     # TODO(simaki): Replace zeros_like with 0.0 once https://github.com/pytorch/pytorch/pull/62084 is merged
     return output.where((s != 0).logical_or(variance != 0), torch.zeros_like(output))
@@ -937,7 +939,7 @@ def bs_european_gamma(
     s, t, v = broadcast_all(log_moneyness, time_to_maturity, volatility)
     spot = strike * s.exp()
     numerator = npdf(d1(s, t, v))
-    denominator = spot * v * t.sqrt()
+    denominator = spot * (v * t.sqrt() + 0.0)  # (+ 0.0: see d1)
     output = numerator / denominator
     return torch.where(
         (numerator == 0).logical_and(denominator == 0), torch.zeros_like(output), output
@@ -1013,7 +1015,7 @@ def bs_european_binary_delta(
     spot = s.exp() * strike
 
     numerator = npdf(d2(s, t, v))
-    denominator = spot * v * t.sqrt()
+    denominator = spot * (v * t.sqrt() + 0.0)  # (+ 0.0: see d1)
     delta = numerator / denominator
     delta = torch.where(
         (numerator == 0).logical_and(denominator == 0), torch.zeros_like(delta), delta
@@ -1038,7 +1040,7 @@ def bs_european_binary_gamma(
     spot = s.exp() * strike
 
     d2_tensor = d2(s, t, v)
-    w = v * t.sqrt()
+    w = v * t.sqrt() + 0.0  # (+ 0.0: see d1)
 
     gamma = -npdf(d2_tensor).div(w * spot.square()) * (1 + d2_tensor.div(w))
 
@@ -1129,7 +1131,7 @@ def bs_american_binary_delta(
 
     d1_tensor = d1(s, t, v)
     d2_tensor = d2(s, t, v)
-    w = v * t.sqrt()
+    w = v * t.sqrt() + 0.0  # (+ 0.0: see d1)
 
     def _div(numerator: Tensor, denominator: Tensor) -> Tensor:
         # 0 / 0 (at maturity or at zero volatility, away from the strike) is 0
@@ -1162,7 +1164,7 @@ def bs_american_binary_gamma(
 
     d1_tensor = d1(s, t, v)
     d2_tensor = d2(s, t, v)
-    w = v * t.sqrt()
+    w = v * t.sqrt() + 0.0  # (+ 0.0: see d1)
 
     p = (
         -npdf(d2_tensor).div(spot.square() * w)
@@ -1242,7 +1244,7 @@ def bs_lookback_price(
     m1 = d1(s - m, t, v)  # d' in the paper
     m2 = d2(s - m, t, v)
 
-    w = v * t.sqrt()
+    w = v * t.sqrt() + 0.0  # (+ 0.0: see d1)
     # w * d1 is written as s + w ** 2 / 2, which stays finite when w = 0
     # (at maturity or at zero volatility, where d1 is infinite).
     # when max < strike
